@@ -8,7 +8,7 @@ from fractions import Fraction
 
 import numpy as np
 
-from common import qlit, lst, coq_bad_indices, CoqError
+from common import qlit, lst, coq_bad_indices, coq_eval_file, CoqError
 import copula_models as CM
 from copula_models import INF, elit, elist, idxlit
 
@@ -157,6 +157,8 @@ def correspond(res):
                         viol("fast path and _mass_nd differ (exact dyadic model)", kind="fast_vs_nd", fast=vf, nd=vn, **desc)
                     if vf < 0:
                         viol("negative rectangle mass", kind="nonneg", fast=vf, **desc)
+                    if cop[0] == "indep" and not all(x <= 0 <= y for x, y in zip(aa, bb)):
+                        _indep_truth(res, model, list(range(dim)) if ind is None else ind, aa, bb, vf, desc, [False] * dim, exact=True, viol=viol)
                     cases.append(f"({elist(aa)}, {elist(bb)}, {idxlit(ind)}, {qlit(vf)}, {qlit(vn)})")
                 # lru cache / order independence: re-evaluate in shuffled order on the same object
                 order = list(evals)
@@ -229,17 +231,16 @@ def correspond(res):
                 res.count(("real", dim, str(margins), str(cop), aa, bb, ind), nontrivial=all(x < y for x, y in zip(aa, bb)), kind=f"tolerance d={dim} {cop[0]}")
                 res.bump("straddling_coordinates", sum(1 for x, y in zip(aa, bb) if x < 0 <= y))
                 desc = dict(a=list(aa), b=list(bb), indices=ind, **desc0)
-                if zero_on_inf_act:
-                    # U_i(0) = +inf for an infinite-activity margin: the rectangle reaches the axis x_i = 0 and may have
-                    # infinite mass; +inf is accepted, nan / negative / fast != nd are not
-                    res.bump("zero_end_point_on_infinite_activity_margin", "inf" if vf == INF else ("nan" if math.isnan(vf) else "finite"))
-                    if math.isnan(vf) or math.isnan(vn):
-                        if not (math.isnan(vf) and sum(1 for x, y in zip(aa, bb) if x < 0 <= y or x == 0) == len(aa)):
-                            viol("mass is nan on a rectangle that does not contain the origin", kind="mass", fast=vf, nd=vn, **desc)
-                    elif vf < -TOL_ABS or (vf != vn and not close(vf, vn, max(1e-3, abs(vf) if math.isfinite(vf) else 1.0))):
-                        viol("negative rectangle mass" if vf < 0 else "fast path and _mass_nd differ", kind="nonneg" if vf < 0 else "fast_vs_nd",
-                             fast=vf, nd=vn, **desc)
-                    continue
+                touches = [x <= 0 <= y for x, y in zip(aa, bb)]       # the CLOSED interval contains 0
+                if all(touches):
+                    # origin in the closure of the rectangle.  With finite tail integrals everything is still finite and is
+                    # checked below; with U_i(0) = +inf (infinite activity) the true mass may be +inf and the formula evaluates
+                    # inf - inf: outside the property ("rectangle not containing the origin"), only counted.
+                    if zero_on_inf_act:
+                        res.bump("out_of_scope_origin_in_closure", "inf" if vf == INF else ("nan" if math.isnan(vf) else "finite"))
+                        continue
+                elif zero_on_inf_act:
+                    res.bump("in_scope_zero_end_point_on_infinite_activity_margin", 1)
                 with np.errstate(all="ignore"):
                     scale = max([1e-3] + [abs(float(model.marginal_tail_integral(i, x))) for i, xs in zip(idxs, zip(aa, bb)) for x in xs
                                           if math.isfinite(x)])
@@ -250,6 +251,8 @@ def correspond(res):
                     viol("fast path and _mass_nd differ", kind="fast_vs_nd", fast=vf, nd=vn, **desc)
                 if vf < -(TOL_ABS + TOL_REL * scale):
                     viol("negative rectangle mass", kind="nonneg", fast=vf, **desc)
+                if cop[0] == "indep" and not all(touches):
+                    _indep_truth(res, model, idxs, aa, bb, vf, desc, infinite_activity, exact=False, viol=viol)
                 # table of the tail integrals the two formulas may read
                 if n_tab < (25 if tier == "quick" else 120) and (ind is None or len(ind) >= 2):
                     tab = _tail_table(model, idxs, aa, bb)
@@ -268,6 +271,7 @@ def correspond(res):
                    tab_cases))
     if tier == "thorough":
         _density_oracle(res, viol)
+    _end_to_end(res, rng, viol)
 
     # ================= Coq side ================================================================================
     res.case_lemmas += len(groups)
@@ -277,6 +281,38 @@ def correspond(res):
             res.broke(f"correspondence {g}", f"model and implementation differ on {len(bad[g])} of {len(cases)} case(s), first: {cases[bad[g][0]][:1500]}")
         else:
             res.case_ok += 1
+
+
+def _indep_truth(res, model, idxs, a, b, got, desc, infinite_activity, exact, viol):
+    """independent components never jump together: the Levy measure sits on the axes.  For a rectangle (a, b] with at least one
+    coordinate interval away from 0:  mass = nu_k((a_k, b_k]) if k is the ONLY such coordinate and every other interval contains
+    0 as a point of the half-open interval (a_j < 0 <= b_j);  0 otherwise."""
+    away = [k for k, (x, y) in enumerate(zip(a, b)) if not (x <= 0 <= y)]
+    truth, marg = 0.0, None
+    if len(away) == 1:
+        k = away[0]
+        with np.errstate(all="ignore"):
+            marg = float(model.models[idxs[k]].levy_triplet.nu.integrate(a[k], b[k]))
+        if all(x < 0 <= y for j, (x, y) in enumerate(zip(a, b)) if j != k):
+            truth = marg
+    res.count(("indep-truth", str(desc.get("margins")), tuple(a), tuple(b), tuple(idxs)), kind="independent copula: true mass")
+    ok = (got == truth) if exact else close(got, truth, max(1e-3, abs(truth)))
+    if not ok:
+        zero_inf = any(x == 0 and infinite_activity[idxs[j]] for j, x in enumerate(a))
+        viol("independent copula: rectangle mass differs from the true mass (measure concentrated on the axes)", kind="indep_truth",
+             finding="F-C12-3" if zero_inf else None, expected=truth, got=got, marginal_mass=marg, zero_on_infinite_activity=zero_inf, **desc)
+
+
+def matches_known(v, known):
+    """F-C12-3 absorbs ONLY: independent copula, a lower end point exactly 0 on an infinite-activity margin (U_i(0) = +inf, the end
+    point is then treated as closed), true mass 0, and the implementation returning the marginal mass of the one coordinate that is
+    away from 0.  Every other mismatch with the true mass is new."""
+    r = v["replay"]
+    if known.get("id") != "F-C12-3" or r.get("kind") != "indep_truth" or r.get("copula") != ["indep"]:
+        return False
+    if not r.get("zero_on_infinite_activity") or r.get("expected") != 0.0 or r.get("marginal_mass") is None:
+        return False
+    return close(float(r["got"]), float(r["marginal_mass"]), max(1e-3, abs(float(r["marginal_mass"]))))
 
 
 def _tail_table(model, idxs, a, b):
@@ -381,6 +417,78 @@ def _inverse_oracle(res, model, desc0, dim, viol):
             if not close(y2, y, abs(y)) and abs(y2 - y) > 1e-7 * abs(y):
                 viol("inverse_tail_integral does not invert the marginal tail integral", kind="inverse", coordinate=i, x=x, tail=y, inverse=back,
                      tail_of_inverse=y2, **desc0)
+
+
+E2E_HEADER = """From Coq Require Import Reals List Bool Lra.
+From Interval Require Import Tactic.
+From RV Require Import Base.RB Base.ExtNum Model.Copula Gen.GenC12Mass Model.MassNd.
+Import ListNotations.
+Open Scope R_scope.
+Lemma Reqb_false x y : x <> y -> Reqb x y = false.
+Proof. intros H. destruct (Reqb x y) eqn:E; auto. apply Reqb_true in E. contradiction. Qed.
+Ltac decide_tests := repeat match goal with
+  | |- context[Rltb ?a ?b] => first [rewrite (proj2 (Rltb_true a b)) by lra | rewrite (proj2 (Rltb_false a b)) by lra]
+  | |- context[Rleb ?a ?b] => first [rewrite (proj2 (Rleb_true a b)) by lra | rewrite (proj2 (Rleb_false a b)) by lra]
+  | |- context[Reqb ?a ?b] => first [rewrite (proj2 (Reqb_true a b)) by lra | rewrite (Reqb_false a b) by lra]
+  end.
+Ltac e2e := unfold fast_2d, fast_3d, mass_3d, mass_2d, mass_1d, margin_tail_integral, tail_val, margin, clayton, clayton_sum;
+  cbn -[Rpower Rabs]; repeat (decide_tests; cbn -[Rpower Rabs]); unfold Rpower.
+"""
+
+
+def _rl(x):
+    fr = Fraction(x)
+    return f"({fr.numerator})" if fr.denominator == 1 else f"(({fr.numerator}) / {fr.denominator})"
+
+
+def _erl(x):
+    return "PInf" if x == INF else ("NInf" if x == -INF else f"(Fin {_rl(x)})")
+
+
+def _end_to_end(res, rng, viol):
+    """C12-5: Clayton + margin + mass computed END TO END by the Coq model over R (Interval), against model.mass of the
+    implementation.  Only the marginal tail integrals of the dyadic step margins enter as exact rationals (they are certified
+    independently by the exact vm_compute groups)."""
+    pos, neg = step_points()
+    lemmas, info = [], []
+    for dim, (th, et), n_rect in ((2, (0.7, 0.3), 10), (2, (2.5, 0.8), 6), (3, (0.7, 0.3), 6), (3, (1.5, 0.0), 4)):
+        margins = [CM.random_step_margin(rng) for _ in range(dim)]
+        cop = ["clayton", th, et]
+        model = CM.make_model(margins, cop)
+        rects = CM.rectangles(rng, dim, pos, neg, n_random=40)
+        rng.shuffle(rects)
+        TH, ET = _rl(th), _rl(et)
+        for (a, b, kinds) in rects[:n_rect if res.tier == "quick" else 3 * n_rect]:
+            if contains_origin(a, b):
+                continue
+            with np.errstate(all="ignore"):
+                v = call_mass(model, "fast", a, b, None)
+            if not math.isfinite(v):
+                continue
+            rows = []
+            for i in range(dim):
+                pts = sorted({x for x in (a[i], b[i]) if math.isfinite(x)})
+                tests = "".join(f"if Reqb v {_rl(x)} then {_rl(float(model.marginal_tail_integral(i, x)))} else " for x in pts)
+                rows.append(f"  | {i}%nat, Fin v => {tests}0")
+            k = len(lemmas)
+            vdef = f"Definition V{k} (i : nat) (x : ext R) : ext R := Fin (match i, x with\n" + "\n".join(rows) + "\n  | _, _ => 0 end)."
+            f = "fast_2d" if dim == 2 else "fast_3d"
+            tol = Fraction(max(1e-12, 1e-9 * abs(v))).limit_denominator(10 ** 18)
+            lemmas.append(f"{vdef}\nLemma case_{k} : Rabs ({f} RNum (tail_val RNum V{k}) (margin_tail_integral RNum V{k} (clayton {TH} {ET}) {dim}) "
+                          f"{lst([_erl(x) for x in a])} {lst([_erl(x) for x in b])} None - {_rl(v)}) <= {_rl(tol)}.\nProof. e2e. interval with (i_prec 90). Qed.")
+            info.append(dict(margins=margins, copula=cop, a=list(a), b=list(b), mass=v))
+            res.count(("e2e", dim, th, et, a, b), kind=f"end-to-end Clayton d={dim}")
+    if not lemmas:
+        res.broke("correspondence end_to_end", "no end-to-end case was generated")
+        return
+    res.case_lemmas += len(lemmas)
+    rc, out = coq_eval_file(PROP, "end_to_end", E2E_HEADER + "\n".join(lemmas) + "\n", timeout=900)
+    if rc == 0:
+        res.case_ok += len(lemmas)
+        return
+    import re
+    m = re.search(r'case_(\d+)', out[out.find("Error"):] if "Error" in out else out)
+    res.broke("correspondence end_to_end", f"Interval could not certify the end-to-end model against model.mass: {out[-1200:]}")
 
 
 def _density_oracle(res, viol):
